@@ -3,6 +3,7 @@ package libscal
 import (
 	"errors"
 	"fmt"
+	"math"
 	"strconv"
 	"strings"
 )
@@ -134,33 +135,11 @@ func ParseHMSRange(str string) (*HMSRange, error) {
 }
 
 func FloatHourToHMS(fh float64) *HMS {
-	hourInt := uint8(fh)
-	hourPortion := fh - float64(hourInt)
-	minuteFloat := hourPortion * 60.0
-	minuteInt := uint8(minuteFloat)
-	minutePortion := minuteFloat - float64(minuteInt)
-	if minutePortion > 0.98 {
-		minutePortion = 0.0
-		minuteInt++
-		if minuteInt == 60 {
-			minuteInt = 0
-			hourInt++
-		}
+	// round to the nearest whole second, then split
+	total := int(math.Floor(fh*3600 + 0.5))
+	return &HMS{
+		uint8(total / 3600),
+		uint8(total / 60 % 60),
+		uint8(total % 60),
 	}
-	secondFloat := minutePortion * 60
-	secondInt := uint8(secondFloat)
-	secondPortion := secondFloat - float64(secondInt)
-	if secondPortion > 0.98 {
-		// secondPortion = 0.0
-		secondInt++
-		if secondInt == 60 {
-			secondInt = 0
-			minuteInt++
-			if minuteInt == 60 {
-				minuteInt = 0
-				hourInt++
-			}
-		}
-	}
-	return &HMS{hourInt, minuteInt, secondInt}
 }
